@@ -598,7 +598,8 @@ def portfolio_check(queries, timeout_ms, seed=0, want_model=True):
         res = {"status": "unknown", "reason": "counter-model of a weaker-hypotheses variant (inconclusive)"}
       elif r == z3.sat and want_model:
         try:
-          res["model"] = _model_to_dict(sc.model())
+          res["_m"] = sc.model()
+          res["model"] = _model_to_dict(res["_m"])
         except Exception:
           res["model"] = {}
       if r == z3.unknown:
@@ -632,6 +633,12 @@ def portfolio_check(queries, timeout_ms, seed=0, want_model=True):
   if winner is None:
     return {"status": "unknown", "backend": "z3-5.1(api) portfolio", "time_s": time.time() - t0, "reason": reason}
   i, res = winner
+  if res.get("_m") is not None:
+    # the model object, for native replay (translated here, in the caller's thread, after the workers have stopped)
+    try:
+      res["_model_obj"] = res.pop("_m").translate(z3.main_ctx())
+    except Exception:
+      res.pop("_m", None)
   res["backend"] = f"z3-5.1(api) portfolio [{members[i][2]}]"
   res["time_s"] = time.time() - t0
   return res
